@@ -199,6 +199,10 @@ def run(ctx):
                 items.append(_mk(f"M{sec}-{j}", "A", str(t), us=str(r.randrange(0, 10**9))))
         _observe_batch(items, recs, ctx)
     _flush(ctx, recs)
+    # block boundaries: the section laid out so that boundaries of every power-of-two block size (and of multiples of 1000)
+    # fall right behind, just after and inside its lines; > 2^20 characters; through from_file and from_filepath
+    from chartgen import judge_block_alignment
+    judge_block_alignment(ctx, "C08", ['sync'])
     ctx.assumptions += [
         "'nearest float' is checked as |x - n/1000| <= half an ulp of x, exact except at powers of two where it is marginally weaker",
         "tempo ticks are small (the batch position) because large ticks at a tempo change would exceed the timedelta range; "
